@@ -27,6 +27,8 @@ type UnitSpec struct {
 	TimeoutS   int      `json:"timeout_s,omitempty"`
 	MaxInline  int      `json:"max_inline,omitempty"`
 	Reveal     bool     `json:"reveal,omitempty"`
+	Ints       string   `json:"ints,omitempty"`     // "math": Go's int is a mathematical integer in this unit
+	Overflow   bool     `json:"overflow,omitempty"` // with ints=math: obligations that int arithmetic stays in 64 bits
 	Note       string   `json:"note,omitempty"`
 }
 
@@ -110,7 +112,13 @@ func RunProperty(id, tier string) int {
 		fmt.Println("ERROR", err)
 		return 2
 	}
-	defer os.RemoveAll(work)
+	if keep := os.Getenv("B6VC_KEEP"); keep != "" {
+		// debugging aid: keep the SMT-LIB files under the given directory
+		os.RemoveAll(keep)
+		defer func() { os.Rename(work, keep) }()
+	} else {
+		defer os.RemoveAll(work)
+	}
 	os.Setenv("B6VC_WORK", work)
 	replayDir := filepath.Join(VerifDir(), "replays", id)
 	os.RemoveAll(replayDir)
@@ -162,6 +170,11 @@ func RunProperty(id, tier string) int {
 		}
 		for _, q := range us.Inline {
 			opt.NoContract[q] = true
+		}
+		SetIntMode(us.Ints == "math")
+		opt.Overflow = us.Overflow
+		if us.Ints == "math" && !us.Overflow {
+			notes.Assumed["int arithmetic treated as mathematical (no overflow obligations) in "+us.Func] = true
 		}
 		x := NewExec(prog, opt, notes)
 		r := &unitRun{spec: us, x: x}
@@ -247,6 +260,7 @@ func RunProperty(id, tier string) int {
 		if r.spec.Unroll > fopt.Unroll {
 			fopt.Unroll = r.spec.Unroll
 		}
+		SetIntMode(false) // the falsifier uses exact machine arithmetic
 		fx := NewExec(prog, fopt, NewNotes())
 		var ferr error
 		func() {
